@@ -192,4 +192,16 @@ theorem remote_is_join_aux (c : Cfg ε) (hc : c.caching = true) (hns : NoSing c)
             rw [hinC', hinH']; rfl
           rw [filter_key_of_filter_id _ (fun x => !inCache s.cacheC x && !inCache s.cacheH x) ph pa id hp1]
 
+theorem remote_abs_after (c : Cfg ε) (hc : c.caching = true) (hns : NoSing c) (s s' : DState ε) (n : Notif ε)
+    (comp halt upd : List (Rec ε))
+    (hevC : s.cacheC.length + comp.length ≤ c.maxCache)
+    (hevH : s.cacheH.length + halt.length ≤ c.maxCache)
+    (hstep : remoteStep c s comp halt upd = some (s', n))
+    (ph pa id : String) (hk : (c.getPattern ph pa).isSome = true) :
+    abs s' ph pa id = join (abs s ph pa id) (absMsg comp halt upd ph pa id) := by
+  obtain ⟨s2, n2, h1, _, h2⟩ := remote_is_join_aux c hc hns s comp halt upd hevC hevH
+  rw [hstep] at h1
+  simp only [Option.some.injEq, Prod.mk.injEq] at h1
+  rw [h1.1]; exact h2 ph pa id hk
+
 end Bobo.Decider
